@@ -511,3 +511,33 @@ package core
 //@   also-modifies lastRemRule
 //@ func (*RuleDone).Do
 //@   assert[C15.ruledone_removes_that_rule] at "loc.RemRule(ctx, w.Parent.Rule.Id)": len(w.Parent.Rule.Schedule) > 0 && (w.Parent.Rule.Schedule[0] == '+' || w.Parent.Rule.Schedule[0] == '!')
+
+// ---- C09: isolation and ancestors ------------------------------------------------------------
+//@ ghost lastFnLoc *Location
+//@ ghost ancErr bool gate
+//@ funcval (*Location).DoAncestors.fn
+//@   ghost-ensures lastFnLoc == arg0 && ancErr == (old(ancErr) || result != nil)
+//@   also-modifies lastFnLoc, ancErr
+//@ iface LocationProvider.GetLocation
+//@   ghost-ensures ancErr == (old(ancErr) || result1 != nil)
+//@   also-modifies ancErr
+//@ func (*Location).DoAncestors
+//@   ensures[C09.ancestors_visit_self_last]   result == nil ==> lastFnLoc == loc
+//@   ensures[C09.ancestors_errors_propagate]  ancErr ==> result != nil
+//@   assert[C09.ancestors_self_loop_refused]  at "loc.Provider.GetLocation(ctx, parent)": parent != loc.Name
+//@   loop 1: invariant[C09.ancestors_loop] !ancErr
+//@   ghost-ensures ancErr == (old(ancErr) || result != nil)
+//@   also-modifies lastFnLoc, ancErr
+
+//@ func (*Location).getParents
+//@   assume-entry lastGetProp == "?"
+//@   ensures[C09.getparents_reads_the_property_each_time] lastGetProp == "parents" && lastGetId == ""
+//@   ensures[C09.getparents_returns_stored_strings] result1 == nil && is(lastGetVal, []string) ==> result0 == lastGetVal.([]string)
+
+//@ func (*SearchResults).Merge
+//@   ensures[C09.merge_concatenates] len(sr.Found) == old(len(sr.Found)) + old(len(more.Found)) && sr.Checked == old(sr.Checked) + old(more.Checked) && result == sr
+
+//@ func NewIndexedState
+//@   ensures[C09.indexed_state_is_for_its_location] result1 == nil ==> result0 != nil && result0.Name == name && result0.Store == store
+//@ func NewLinearState
+//@   ensures[C09.linear_state_is_for_its_location] result1 == nil ==> result0 != nil && result0.Name == name && result0.store == store
